@@ -9,7 +9,8 @@ BOUNDARIES = ['\n', '\r', '\r\n', '\x0b', '\x0c', '\x1c', '\x1d', '\x1e', '\x85'
 
 def nasty_text(rng, n=None):
     """descriptions with every kind of line boundary, comment / section markers, non-ASCII"""
-    words = ['basis', '****', '!', '#', '*', '$end', 'END', 'BASIS "ao basis" PRINT', 'H     0', '1.0 2.0', 'é', 'Å', '–', '$basis', '&', 'spherical', '']
+    words = ['basis', '****', '!', '#', '*', '$end', 'END', 'BASIS "ao basis" PRINT', 'H     0', '1.0 2.0', 'é', 'Å', '–', '$basis', '&', 'spherical', '',
+             '    #2 indented', '  *-type functions', '   !experimental', '    $basis', '\t# tab']      # lines that begin with blanks and then a comment / section marker
     out = []
     for _ in range(n or rng.randint(1, 8)):
         out.append(rng.choice(words))
@@ -81,10 +82,11 @@ def check_text(ctx, fmt, basis, header, label):
 
 def readback_same(ctx, fmt, bare, headed, label, header):
     from basis_set_exchange import readers
-    if fmt not in readers.read._reader_map:
+    rfmt = {'gaussian94lib': 'gaussian94'}.get(fmt, fmt)       # the system-library form of the Gaussian format is read by the gaussian94 reader
+    if rfmt not in readers.read._reader_map:
         return
-    a = impl.call(readers.read_formatted_basis_str, bare, fmt)
-    b = impl.call(readers.read_formatted_basis_str, headed, fmt)
+    a = impl.call(readers.read_formatted_basis_str, bare, rfmt)
+    b = impl.call(readers.read_formatted_basis_str, headed, rfmt)
     ctx.case((label, fmt, 'readback'), True, 'readback:' + fmt)
     if a[0] == 'ok' and b[0] == 'ok':
         if a[1]['elements'] != b[1]['elements']:
@@ -223,7 +225,7 @@ def run(ctx):
         # names that are not the first entry of their family's list of names (ten in the store)
         pairs += [(n, md[n]['latest_version']) for n in ('6-31g(d,p)', 'midix') if n in md]
         # a description with curly braces ("10^{-5}"), and both versions of a basis in one process (the header states each one's own)
-        pairs += [(n, md[n]['latest_version']) for n in ('ahgbs-5', 'hgbs-5') if n in md]
+        pairs += [(n, md[n]['latest_version']) for n in ('ahgbs-5', 'hgbs-5', 'lanl2dz') if n in md]      # lanl2dz: ECP blocks (blank lines inside the payload)
         multi = sorted(k for k, v in md.items() if len(v['versions']) > 1)
         for k in ctx.rng.sample(multi, min(3, len(multi))):
             pairs += [(k, v) for v in sorted(md[k]['versions'])]
